@@ -52,8 +52,13 @@ pub fn ops_for_len(len: i64) -> Vec<COp> {
         DrainFilter { v, m: 3, take: 2 },
         ShrinkToFit { v },
         CloneVec { v, w: 1 },
-        IntoBumpSlice { v },
-        IntoBoxedSlice { v, b: 0 },
+        IntoBumpSlice { v, mutable: false },
+        IntoBumpSlice { v, mutable: true },
+        IntoBoxedSlice { v, b: 0, via_from: false },
+        IntoBoxedSlice { v, b: 0, via_from: true },
+        VecViews { v, w: 1 },
+        VecViews { v: 1, w: 0 },
+        VecViews { v, w: 0 },
         Extend { v, vals: vec![5, 6] },
         Extend { v, vals: vec![] },
         ExtendFromSlice { v, vals: vec![8, 8, 9] },
@@ -114,6 +119,15 @@ pub fn single(maxlen: i64) -> Vec<CProgram> {
             out.push(CProgram { ops, tag: "single".into() });
         }
     }
+    // comparisons / hashing / formatting of two vectors against the same on their slices
+    let vs: [&[i64]; 7] = [&[], &[2], &[3], &[2, 2], &[2, 3], &[2, 2, 3], &[1, 9, 9, 9]];
+    for a in vs.iter() {
+        for b in vs.iter() {
+            let ops = vec![COp::FromIter { v: 0, vals: a.to_vec() }, COp::FromIter { v: 1, vals: b.to_vec() }, COp::VecViews { v: 0, w: 1 },
+                           COp::Push { v: 0, val: 1 }, COp::VecViews { v: 1, w: 0 }];
+            out.push(CProgram { ops, tag: "single".into() });
+        }
+    }
     out
 }
 
@@ -153,7 +167,7 @@ pub fn small_alphabet(len: i64) -> Vec<COp> {
         ShrinkToFit { v },
         CloneVec { v, w: 1 },
         IntoIter { v, front: 1, back: 1 },
-        IntoBoxedSlice { v, b: 0 },
+        IntoBoxedSlice { v, b: 0, via_from: false },
         BoxNew { b: 1, val: 33 },
         BoxIntoInner { b: 1 },
         BoxLeak { b: 1 },
@@ -234,7 +248,7 @@ pub fn panics(maxlen: i64) -> Vec<CProgram> {
             Drain { v, r: rg(0, 0, 0, 0), front: 1, back: 0, forget: false },
             Drain { v, r: rg(1, 1, 0, 0), front: 0, back: 0, forget: false },
             BoxDrop { b: 1 },
-            IntoBoxedSlice { v, b: 0 },
+            IntoBoxedSlice { v, b: 0, via_from: false },
         ];
         for c in cands {
             for n in 0..(2 * len + 6) {
